@@ -18,15 +18,15 @@ Print Assumptions C08_read_after_write.
 
 (* A/B are the low/high bytes of BA, IL/IH of I, carry/zero are bits 0/1 of F; every read is below its width *)
 Theorem C08_overlap : forall s, wf s ->
-  py_get s rBA = py_get s rB * p8 + py_get s rA /\
-  py_get s rI = py_get s rIH * p8 + py_get s rIL /\
-  py_get s rFC = py_get s rF mod 2 /\
-  py_get s rFZ = (py_get s rF / 2) mod 2 /\
-  (forall r, py_get s r < width r \/ match r with rTEMP k => (NTEMP <= k)%nat | _ => False end).
+  py_get s gBA = py_get s gB * p8 + py_get s gA /\
+  py_get s gI = py_get s gIH * p8 + py_get s gIL /\
+  py_get s gFC = py_get s gF mod 2 /\
+  py_get s gFZ = (py_get s gF / 2) mod 2 /\
+  (forall r, py_get s r < width r \/ match r with gTEMP k => (NTEMP <= k)%nat | _ => False end).
 Proof. exact py_overlap. Qed.
 Print Assumptions C08_overlap.
 
-Theorem C08_il_clears_ih : forall s v, py_get (py_set s rIL v) rIH = 0 /\ py_get (py_set s rIL v) rIL = v mod p8.
+Theorem C08_il_clears_ih : forall s v, py_get (py_set s gIL v) gIH = 0 /\ py_get (py_set s gIL v) gIL = v mod p8.
 Proof. exact py_il_clears_ih. Qed.
 Print Assumptions C08_il_clears_ih.
 
@@ -37,10 +37,10 @@ Print Assumptions C08_frame.
 
 (* ... and inside a group only the addressed part (IL being the documented exception, above) *)
 Theorem C08_frame_parts : forall s v, wf s ->
-  py_get (py_set s rA v) rB = py_get s rB /\ py_get (py_set s rB v) rA = py_get s rA /\
-  py_get (py_set s rIH v) rIL = py_get s rIL /\
-  py_get (py_set s rFC v) rFZ = py_get s rFZ /\ py_get (py_set s rFZ v) rFC = py_get s rFC /\
-  py_get (py_set s rFC v) rF / 4 = py_get s rF / 4 /\ py_get (py_set s rFZ v) rF / 4 = py_get s rF / 4.
+  py_get (py_set s gA v) gB = py_get s gB /\ py_get (py_set s gB v) gA = py_get s gA /\
+  py_get (py_set s gIH v) gIL = py_get s gIL /\
+  py_get (py_set s gFC v) gFZ = py_get s gFZ /\ py_get (py_set s gFZ v) gFC = py_get s gFC /\
+  py_get (py_set s gFC v) gF / 4 = py_get s gF / 4 /\ py_get (py_set s gFZ v) gF / 4 = py_get s gF / 4.
 Proof. exact py_frame_parts. Qed.
 Print Assumptions C08_frame_parts.
 
@@ -73,9 +73,9 @@ Print Assumptions C08_py_rs_agree.
 
 (* Non-vacuity: a concrete non-trivial sequence *)
 Example C08_example :
-  py_run py_init [OSet rBA 0x12345; OGet rA; OGet rB; OSet rIL 0x1FF; OSet rIH 7; OSet rIL 1; OGet rI;
-                  OSet rX 0xFFFFFFFF; OSet rFZ 3; OSet rFC 2; OGet rF; OSet (rTEMP 13) 0x1234567; OSnap; OBlob]
-  = rs_run rs_init [OSet rBA 0x12345; OGet rA; OGet rB; OSet rIL 0x1FF; OSet rIH 7; OSet rIL 1; OGet rI;
-                  OSet rX 0xFFFFFFFF; OSet rFZ 3; OSet rFC 2; OGet rF; OSet (rTEMP 13) 0x1234567; OSnap; OBlob]
-  /\ nth 6 (py_run py_init [OSet rBA 0x12345; OGet rA; OGet rB; OSet rIL 0x1FF; OSet rIH 7; OSet rIL 1; OGet rI]) [] = [1].
+  py_run py_init [OSet gBA 0x12345; OGet gA; OGet gB; OSet gIL 0x1FF; OSet gIH 7; OSet gIL 1; OGet gI;
+                  OSet gX 0xFFFFFFFF; OSet gFZ 3; OSet gFC 2; OGet gF; OSet (gTEMP 13) 0x1234567; OSnap; OBlob]
+  = rs_run rs_init [OSet gBA 0x12345; OGet gA; OGet gB; OSet gIL 0x1FF; OSet gIH 7; OSet gIL 1; OGet gI;
+                  OSet gX 0xFFFFFFFF; OSet gFZ 3; OSet gFC 2; OGet gF; OSet (gTEMP 13) 0x1234567; OSnap; OBlob]
+  /\ nth 6 (py_run py_init [OSet gBA 0x12345; OGet gA; OGet gB; OSet gIL 0x1FF; OSet gIH 7; OSet gIL 1; OGet gI]) [] = [1].
 Proof. split; vm_compute; reflexivity. Qed.
